@@ -33,20 +33,26 @@ ASSUMPTIONS = [
     'energy_balance=True only with phases l/g at 300-350 K (the property is about material; the energy side is C02)',
     'only per-chemical totals over phases are compared (which phase the material lands in is C12); negative / stored-zero entries are a state invariant',
     'copy_flow: only the moved material is compared (destination entries outside the moved set may be overwritten by the documented "copy" semantics)',
-    'n = 3 inlets: quick uses a 12-template sub-menu, thorough a 24-template sub-menu; n <= 2 uses the full menu of the tier (58 / 114 templates)',
+    'n <= 2 inlets: the full menu of the tier (71 / 139 templates; thorough also receivers multi (g,l,s), (L,l), (S,s) and two receivers on the interleaved superset package C); n = 3: quick the 12-template sub-menu, thorough the full ordered product over 139 templates for receivers single-l and multi-gl and over 71 templates for single-g and multi-Lls (c01.mix3.*)',
     'vle=True mixing is not explored here (C03/C04 drive the flash)',
 ]
 TOLERANCES = {'flow_equality': 0.0}
 
 VA = ((0., 0., 0.), (1., 0., 0.), (2.5, 0.375, 0.), (0., 0., 1.), (1., 2.5, 0.375))      # Water, Ethanol, Methanol
 VB = ((0., 0.), (1., 0.), (0.375, 2.5), (0., 1.))                                       # Ethanol, Water
-VEC = {'A': VA, 'B': VB}
+# C: a strict superset of A with A's chemicals interleaved in another order (thorough tier: receivers on C, inlets from A, B, C)
+C_IDS = ('Methanol', 'Propanol', 'Water', 'Acetone', 'Ethanol')
+VC = ((0., 0., 0., 0., 0.), (0.5, 0., 1., 0., 2.5), (0.375, 1., 0., 4., 0.), (1., 2.5, 0.375, 0.5, 2.))
+VEC = {'A': VA, 'B': VB, 'C': VC}
 QUICK_V = {'A': (0, 2, 4), 'B': (0, 2)}
 SINGLE_PHASES = ('s', 'l', 'g', 'S', 'L')
 MULTI_SETS = (('g', 'l'), ('l', 's'), ('L', 'l'), ('S', 's'))      # (L,l) / (S,s): twin labels that fold into one row of a receiver with only one of them
 
 _T = {}
-def th(pkg): return fixtures.thermo(pkg)
+def th(pkg): return fixtures.custom_thermo(C_IDS) if pkg == 'C' else fixtures.thermo(pkg)
+def sub(p, q):
+    """package p's chemicals are a subset of package q's"""
+    return p == q or set(cas(p)) <= set(cas(q))
 def cas(pkg): return th(pkg).chemicals.CASs
 
 
@@ -78,12 +84,23 @@ def make(tmpl, T=None):
     return s
 
 
+_TT = {}
 def tmpl_totals(tmpl):
-    pkg = tmpl[1]
-    v = np.array(VEC[pkg][tmpl[-1]])
-    if tmpl[0] == 'M' and tmpl[3] == 'both': v = v + v[::-1]
-    return {c: float(x) for c, x in zip(cas(pkg), v)}
+    """CAS -> total of a template (memoised; callers never modify the dict)"""
+    r = _TT.get(tmpl)
+    if r is None:
+        pkg = tmpl[1]
+        v = np.array(VEC[pkg][tmpl[-1]])
+        if tmpl[0] == 'M' and tmpl[3] == 'both': v = v + v[::-1]
+        r = _TT[tmpl] = {c: float(x) for c, x in zip(cas(pkg), v)}
+    return r
 
+_TD = {}
+def tmpl_digest(tmpl):
+    """full_digest of a freshly made template stream (memoised)"""
+    r = _TD.get(tmpl)
+    if r is None: r = _TD[tmpl] = full_digest(make(tmpl))
+    return r
 
 def totals(s):
     return fixtures.totals_by_cas(s)
@@ -127,12 +144,13 @@ def rep_invariant(s, name):
 
 
 def full_digest(s):
-    t = fixtures.tmo()
+    """class, package, phase(s) and the complete sparse flow data INCLUDING the insertion order of every row's dict (a stored zero or
+    a negative entry is visible; the order is hidden state that index_overlap reads)"""
     imol = s._imol
-    if isinstance(s, t.MultiStream): ph = ('M', tuple(imol._phases))
-    else: ph = ('S', imol._phase._phase)
-    rows = imol.data.rows if hasattr(imol.data, 'rows') else [imol.data]
-    return (type(s).__name__, tuple(s.chemicals.IDs), ph, fixtures.sparse_digest(imol.data), tuple(tuple(r.dct) for r in rows))
+    data = imol.data
+    rows = data.rows if hasattr(data, 'rows') else (data,)
+    ph = ('M', imol._phases) if hasattr(imol, '_phases') else ('S', imol._phase._phase)
+    return (s.__class__.__name__, s.chemicals.IDs, ph, tuple([(r.size, tuple(r.dct.items())) for r in rows]))
 
 
 def cache_digest(pkg):
@@ -168,11 +186,24 @@ def menu(level):
                     if vi: out.append(('M', pkg, ps, fill, vi))
     return out
 
+def menu_for(level, recv_pkg):
+    m = menu(level)
+    if recv_pkg == 'C':
+        m = m + [('S', 'C', 'l', 1), ('S', 'C', 'g', 3), ('R', 'C', 'l', 3), ('S', 'C', 's', 2), ('M', 'C', ('g', 'l'), 'both', 3), ('M', 'C', ('L', 'l'), 'both', 2),
+                 ('M', 'C', ('l', 's'), 'second', 1)]
+    return m
+
 EB_PHASES = 'lgLsS'      # mix_from's default energy_balance=True: the one-non-empty-inlet path goes through copy_like
 RECEIVERS = {
     'single-l': ('S', 'A', 'l', 4), 'single-g': ('S', 'A', 'g', 4),
     'multi-gl': ('M', 'A', ('g', 'l'), 'both', 4), 'multi-Lls': ('M', 'A', ('L', 'l'), 'both', 4),
 }
+# thorough tier only: more phase sets, receivers on the third package
+RECEIVERS_T = {
+    'multi-gls': ('M', 'A', ('g', 'l'), 'both', 4), 'multi-Ll': ('M', 'A', ('L', 'l'), 'both', 4), 'multi-Ss': ('M', 'A', ('S', 's'), 'both', 4),
+    'single-l-C': ('S', 'C', 'l', 3), 'multi-gl-C': ('M', 'C', ('g', 'l'), 'both', 3),
+}
+def recv_pkg(kind): return 'C' if kind.endswith('-C') else 'A'
 
 def make_receiver(kind):
     t = fixtures.tmo()
@@ -183,6 +214,13 @@ def make_receiver(kind):
             for i, x in enumerate(v):
                 if x: r.dct[i] = x
         return s
+    if kind == 'multi-gls':
+        s = t.MultiStream(None, thermo=th('A'), phases=('g', 'l', 's'))
+        for r, v in zip(s._imol.data.rows, ((0., 0.375, 1.), (2.5, 0., 0.), (1., 1., 0.))):
+            for i, x in enumerate(v):
+                if x: r.dct[i] = x
+        return s
+    if kind in RECEIVERS_T: return make(RECEIVERS_T[kind])
     if kind == 'multi-ls':          # only used with energy_balance=True: has 'l' but not 'L', 's' but not 'S'
         return make(('M', 'A', ('l', 's'), 'both', 4))
     return make(RECEIVERS[kind])
@@ -192,7 +230,7 @@ class Mix(System):
     name = 'c01.mix'
     nontrivial_per_config = True
 
-    def warm(self): th('A'); th('B')
+    def warm(self): th('A'); th('B'); th('C')
     def reset_globals(self): fixtures.reset_globals()
     def depth(self, tier): return 1
 
@@ -200,10 +238,10 @@ class Mix(System):
         self._tier = tier
         m = menu('quick' if tier == 'quick' else 'full')
         cfgs = []
-        for recv in RECEIVERS:
+        for recv in list(RECEIVERS) + ([] if tier == 'quick' else list(RECEIVERS_T)):
             for selfk in (0, 1, 2):
                 cfgs.append((recv, False, selfk, None))
-                for t1 in m: cfgs.append((recv, False, selfk, t1))
+                for t1 in menu_for('quick' if tier == 'quick' else 'full', recv_pkg(recv)): cfgs.append((recv, False, selfk, t1))
         eb = [t for t in m if all(p in EB_PHASES for p in (t[2] if t[0] != 'M' else ''.join(t[2])))]
         for recv in ('single-l', 'single-g', 'multi-gl', 'multi-ls'):
             for selfk in (0, 1, 2):
@@ -226,7 +264,7 @@ class Mix(System):
         recv, eb, selfk, t1 = st.config
         if t1 is None: return [()]
         tier = self._tier
-        m2 = menu('quick' if tier == 'quick' else 'full')
+        m2 = menu_for('quick' if tier == 'quick' else 'full', recv_pkg(recv))
         m3 = menu('mini' if tier == 'quick' else 'mid')
         if eb:
             ok = lambda t: all(p in EB_PHASES for p in (t[2] if t[0] != 'M' else ''.join(t[2])))
@@ -249,15 +287,16 @@ class Mix(System):
         exp = {}
         for t in tmpls: exp = add(exp, tmpl_totals(t))
         if selfk: exp = add(exp, st.r0, float(selfk))
-        for c in cas('A'): exp.setdefault(c, 0.)
-        before = [full_digest(s) for s in inlets]
+        rp = recv_pkg(recv)
+        for c in cas(rp): exp.setdefault(c, 0.)
+        before = [tmpl_digest(t) for t in tmpls]
         nonempty = [tmpl_totals(t) for t in tmpls if any(tmpl_totals(t).values())] + ([st.r0] * selfk)
-        collide = any(sum(1 for d in nonempty if d.get(c, 0.)) >= 2 for c in cas('A'))
+        collide = any(sum(1 for d in nonempty if d.get(c, 0.)) >= 2 for c in cas(rp))
         classes = sorted(set(cls(t) for t in tmpls if any(tmpl_totals(t).values())))
         st.info = dict(n=len(tmpls), collide=collide, nonempty=len(nonempty))
         ne_t = [t for t in tmpls if any(tmpl_totals(t).values())]
         match = dict(op='mix', recv=recv.split('-')[0], eb=eb, nonempty=('0', '1', '2+')[min(len(nonempty), 2)],
-                     cross=any(t[1] == 'B' for t in ne_t), multi_inlet=any(t[0] == 'M' for t in ne_t))
+                     cross=any(t[1] != rp for t in ne_t), multi_inlet=any(t[0] == 'M' for t in ne_t))
         try:
             st.r.mix_from(lst, energy_balance=eb)
         except Exception as e:
@@ -294,12 +333,50 @@ class Mix(System):
                      type(st.r).__name__))[:300]
 
 
+class Mix3(Mix):
+    """the FULL ordered product of three inlet templates for one receiver (energy_balance=False): thorough = the full menu (139
+    templates; receivers single-l and multi-gl) or the quick menu (71; single-g, multi-Lls) with the receiver not among the inlets
+    + the quick menu with the receiver as first inlet; quick = the 12-template sub-menu."""
+    def __init__(self, recv, tcap_t=260, full=True):
+        self.recv = recv
+        self.full = full
+        self.name = f'c01.mix3.{recv}'
+        self._tcap_t = tcap_t
+        self._tier = 'quick'
+    def time_cap(self, tier): return 30 if tier == 'quick' else self._tcap_t
+
+    def _menus(self, tier):
+        if tier == 'quick': return {0: menu('mini'), 1: []}
+        return {0: menu_for('full', recv_pkg(self.recv)) if self.full else menu('quick'), 1: menu('quick')}
+
+    def configs(self, tier, seed):
+        self._tier = tier
+        cfgs = []
+        for selfk, m in self._menus(tier).items():
+            cfgs += [(self.recv, selfk, t1, t2) for t1 in m for t2 in m]
+        k = seed % len(cfgs)
+        return cfgs[k:] + cfgs[:k]
+
+    def build(self, config):
+        recv, selfk, t1, t2 = config
+        st = Mix.build(self, (recv, False, selfk, t1))
+        st.cfg = config; st.t2 = t2
+        return st
+
+    def actions(self, st):
+        return [(t3,) for t3 in self._menus(self._tier)[st.cfg[1]]]
+
+    def step(self, st, a): return Mix.step(self, st, (st.t2,) + tuple(a))
+    def canon(self, st): return (st.cfg, st.done, full_digest(st.r))
+    def outcome(self, st, a, obs): return Mix.outcome(self, st, (st.t2,) + tuple(a), obs)
+
+
 # ==================================================================================================================
 # layer 1b: splitting
 
 SPLITS_SCALAR = (0., 0.25, 1.)
 
-def split_vectors(n): return list(itertools.product((0., 0.5, 1.), repeat=n))
+def split_vectors(n, full=False): return list(itertools.product((0., 0.25, 0.5, 1.) if full else (0., 0.5, 1.), repeat=n))
 
 FEEDS = [('S', 'A', 'l', 4), ('S', 'A', 'g', 2), ('S', 'A', 'l', 0), ('M', 'A', ('g', 'l'), 'both', 4), ('M', 'A', ('g', 'l'), 'first', 2),
          ('S', 'B', 'l', 2), ('S', 'B', 'l', 0), ('M', 'B', ('g', 'l'), 'both', 2), ('S', 'A', 's', 4), ('M', 'A', ('l', 's'), 'second', 4)]
@@ -346,6 +423,7 @@ class Split(System):
         n = len(VEC[f[1]][0])
         vecs = split_vectors(n)
         if self._tier == 'quick': vecs = [v for j, v in enumerate(vecs) if j % 4 == 1 or v in ((0.,) * n, (1.,) * n)]
+        else: vecs = split_vectors(n, full=True)          # {0, 1/4, 1/2, 1}^n : 64 vectors for A, 16 for B
         return [('sc', x) for x in SPLITS_SCALAR] + [('vec', v) for v in vecs]
 
     def step(self, st, a):
@@ -656,20 +734,26 @@ class SepCopy(System):
 # layer 2: histories on three streams, _index_cache part of the state
 
 class History(System):
-    name = 'c01.history'
     nontrivial_per_config = True
-    def __init__(self):
+    def __init__(self, name='c01.history', universes=None, depth_q=3, depth_t=4, tcap_t=600, vector_splits=True):
+        self.name = name
         self._tier = 'quick'
-    def warm(self): th('A'); th('B')
+        self._universes = universes
+        self._dq, self._dt, self._tcap_t = depth_q, depth_t, tcap_t
+        self.vector_splits = vector_splits
+    def warm(self): th('A'); th('B'); th('C')
     def reset_globals(self): fixtures.reset_globals()
-    def depth(self, tier): return 3 if tier == 'quick' else 4
-    def time_cap(self, tier): return 60 if tier == 'quick' else 600
+    def depth(self, tier): return self._dq if tier == 'quick' else self._dt
+    def time_cap(self, tier): return 60 if tier == 'quick' else self._tcap_t
 
     def configs(self, tier, seed):
         self._tier = tier
+        if self._universes is not None: return list(self._universes)
         cfgs = [(('S', 'A', 'l', 4), ('M', 'A', ('g', 'l'), 'both', 2), ('S', 'B', 'l', 2))]
         if tier != 'quick':
             cfgs.append((('S', 'A', 'g', 2), ('M', 'A', ('l', 's'), 'first', 4), ('M', 'B', ('g', 'l'), 'both', 2)))
+            # three packages: a receiver on the interleaved superset C, fed from A and B
+            cfgs.append((('S', 'C', 'l', 3), ('M', 'A', ('g', 'l'), 'both', 2), ('S', 'B', 'l', 2)))
         return cfgs
 
     def build(self, config):
@@ -682,23 +766,24 @@ class History(System):
 
     def actions(self, st):
         acts = []
-        n = 3
+        n = len(st.s)
         t = fixtures.tmo()
-        A_idx = [i for i in range(n) if st.pk[i] == 'A']
         B_idx = [i for i in range(n) if st.pk[i] == 'B']
-        # mixing into receivers on A
-        for r in A_idx:
-            others = [i for i in range(n) if i != r]
-            for lst in ([others[0]], [others[1]], [r, others[0]], [r, others[1]], others, [r] + others, [others[1], r, r]):
-                acts.append(('mix', r, tuple(lst)))
-        for r in B_idx:
-            acts.append(('mix', r, (r, r)))
+        # mixing: every receiver, inlets = the other streams whose package is contained in the receiver's
+        for r in range(n):
+            others = [i for i in range(n) if i != r and sub(st.pk[i], st.pk[r])]
+            if not others:
+                acts.append(('mix', r, (r, r))); continue
+            lists = [[o] for o in others] + [[r, o] for o in others]
+            if len(others) > 1: lists += [others, [r] + others]
+            lists.append([others[-1], r, r])
+            for lst in lists: acts.append(('mix', r, tuple(lst)))
         # splitting: outlets must be supersets of the feed
         for f in range(n):
             for o1 in range(n):
                 for o2 in range(n):
                     if o1 == o2: continue
-                    if any(st.pk[o] == 'B' and st.pk[f] == 'A' for o in (o1, o2)): continue
+                    if any(not sub(st.pk[f], st.pk[o]) for o in (o1, o2)): continue
                     # a single-phase feed split into a multi-phase outlet is not supported by Stream.split_to (classified at depth 1)
                     if not isinstance(st.s[f], t.MultiStream) and any(isinstance(st.s[o], t.MultiStream) for o in (o1, o2) if o != f): continue
                     # a multi-phase feed assigns its phase set to the outlets: the new set must hold the outlet's phase / every
@@ -706,18 +791,18 @@ class History(System):
                     if isinstance(st.s[f], t.MultiStream) and any(not self._phases_within(st.s[o], st.s[f]) for o in (o1, o2) if o != f): continue
                     nf = len(VEC[st.pk[f]][0])
                     acts.append(('split', f, o1, o2, ('sc', 0.25)))
-                    acts.append(('split', f, o1, o2, ('vec', (1., 0., 0.5)[:nf])))
+                    if self.vector_splits: acts.append(('split', f, o1, o2, ('vec', (1., 0., 0.5, 0.25, 1.)[:nf])))
         # separate_out when the part is contained phase by phase (evaluated on the current, consistent state)
         for mx in range(n):
             for p in range(n):
                 if mx == p: continue
-                if st.pk[mx] == 'B' and st.pk[p] == 'A': continue
+                if not sub(st.pk[p], st.pk[mx]): continue
                 if isinstance(st.s[mx], t.MultiStream) and not self._phases_within(st.s[p], st.s[mx]): continue
                 if self._contained(st, p, mx): acts.append(('sep', mx, p))
         for d in range(n):
             for s_ in range(n):
                 if d == s_: continue
-                if st.pk[d] == 'B' and st.pk[s_] == 'A': continue
+                if not sub(st.pk[s_], st.pk[d]): continue
                 acts.append(('copy', d, s_, '...'))
                 acts.append(('copy', d, s_, 'Water'))
                 if isinstance(st.s[d], t.MultiStream) and st.pk[d] == st.pk[s_]:
@@ -882,7 +967,7 @@ class History(System):
                             detail=dict(cacheA=len(th('A').chemicals._index_cache), cacheB=len(th('B').chemicals._index_cache)))
         partial = new.pop('partial_dst', None)
         changed = changed0
-        for i in range(3):
+        for i in range(len(S)):
             got = totals(S[i])
             if i in new:
                 exp = new[i]
@@ -909,11 +994,13 @@ class History(System):
         return out
 
     def canon(self, st):
-        return (tuple(full_digest(s) for s in st.s), cache_digest('A'), cache_digest('B'))
+        return (tuple(full_digest(s) for s in st.s),) + tuple(cache_digest(p) for p in sorted(set(st.pk)))
 
     def nontrivial(self, st, a, obs): return bool(st.info.get('changed'))
     def outcome(self, st, a, obs):
         return repr((a[0], tuple(type(s).__name__ for s in st.s), obs, len(th('A').chemicals._index_cache) > 0))
 
 
-SYSTEMS = [Mix(), Split(), SepCopy(), History()]
+UNIVERSE_4 = [(('S', 'A', 'l', 4), ('M', 'A', ('g', 'l'), 'both', 2), ('S', 'B', 'l', 2), ('S', 'C', 'g', 3))]
+SYSTEMS = [Mix(), Split(), SepCopy(), History(),
+           History('c01.history4s', universes=UNIVERSE_4, depth_q=1, depth_t=3, tcap_t=300, vector_splits=True)] + [Mix3(r, full=r in ('single-l', 'multi-gl')) for r in RECEIVERS]
